@@ -55,7 +55,15 @@ Sig == [
   \* DB-level methods (life = state of the database)
   DBUpdate |-> <<"V">>, DBView |-> <<"V">>, DBBegin |-> <<"V">>, DBMerge |-> <<>>, DBBackup |-> <<"V">>, DBClose |-> <<>>]
 
-Methods == DOMAIN Sig
+\* "A call that succeeds never makes a later Commit panic": sequences of up to
+\* three mutating calls on tiny preloaded structures (a one-element list, set
+\* and sorted set, one key) inside one write transaction, then Commit.
+SeqAlphabet == {"RPop", "LPop", "LRem", "LTrim", "LSet", "RPush", "SPop", "SRem", "SAdd",
+                "ZPopMax", "ZPopMin", "ZRem", "ZRemRangeByRank", "ZAdd", "Put", "Delete"}
+Seqs == {<<a>> : a \in SeqAlphabet} \cup {<<a, b>> : a, b \in SeqAlphabet}
+        \cup (IF Full THEN {<<a, b, c>> : a, b, c \in SeqAlphabet} ELSE {<<a, a, b>> : a, b \in SeqAlphabet})
+
+Methods == DOMAIN Sig \cup {"Seq"}
 DBMethods == {"DBUpdate", "DBView", "DBBegin", "DBMerge", "DBBackup", "DBClose"}
 
 \* lifecycle states: a transaction of an open database (writable, read-only,
@@ -79,7 +87,11 @@ Init == out = <<>>
 Emit(m, life) == \E a \in ArgsFor(m, life) :
   /\ out' = [m |-> m, life |-> life, args |-> a]
   /\ PrintT(<<"GEN", ToJson(out')>>)
-Next == \/ \E m \in Methods \ DBMethods, life \in TxLives : Emit(m, life)
+EmitSeq == \E q \in Seqs :
+  /\ out' = [m |-> "Seq", life |-> "rw", args |-> q]
+  /\ PrintT(<<"GEN", ToJson(out')>>)
+Next == \/ \E m \in DOMAIN Sig \ DBMethods, life \in TxLives : Emit(m, life)
+        \/ EmitSeq
         \/ \E m \in DBMethods, life \in DBLives : Emit(m, life)
 Spec == Init /\ [][Next]_out
 View == 0
